@@ -16,6 +16,8 @@ func (r *Runner) Run() error {
 	var pc int32
 	for pc/4 < int32(len(r.App.Instructions)) {
 		runner := r.App.Instructions[pc/4]
+		// Clear forward (the program may have been run by a forwarding machine)
+		runner.Forward(Forward{})
 		exe, err := runner.Run(r.Ctx, r.App.Labels, pc, nil, 0)
 		if err != nil {
 			return err
